@@ -11,8 +11,10 @@ import (
 	"encoding/json"
 	"fmt"
 	"math/rand"
+	"regexp"
 	"sort"
 	"strings"
+	"unicode/utf8"
 
 	"github.com/formancehq/ledger/verifharness/sim"
 )
@@ -342,16 +344,16 @@ func c38BoundaryStrings() []string {
 	out := append([]string(nil), sim.StrPool...)
 	out = append(out,
 		c38Long,
-		"\xff\xfe\xfd",            // invalid UTF-8
-		"a\xc3",                   // truncated UTF-8 sequence
-		"\x00",                    // NUL
-		"a\x00b",                  // embedded NUL
-		"\x01\x02\x1f\x7f",        // control characters
-		"\u202e\u200b\ufeff",      // bidi / zero width / BOM
-		"\U0001F600",              // astral plane
-		"' OR 1=1 --",             // SQL-looking
-		"${x}",                    // template-looking
-		"%s%d%!",                  // format-looking
+		"\xff\xfe\xfd",       // invalid UTF-8
+		"a\xc3",              // truncated UTF-8 sequence
+		"\x00",               // NUL
+		"a\x00b",             // embedded NUL
+		"\x01\x02\x1f\x7f",   // control characters
+		"\u202e\u200b\ufeff", // bidi / zero width / BOM
+		"\U0001F600",         // astral plane
+		"' OR 1=1 --",        // SQL-looking
+		"${x}",               // template-looking
+		"%s%d%!",             // format-looking
 		"../../etc/passwd",
 		strings.Repeat("é", 300),
 	)
@@ -383,8 +385,14 @@ var c38ContentTypes = []string{"text/plain", "application/xml", "multipart/form-
 	"application/vnd.formance.ledger.api.v2.bulk+script-stream", "application/vnd.formance.ledger.api.v2.bulk+json-stream", "application/vnd.formance.ledger.api.v2.bulk+unknown", "APPLICATION/JSON", "application/json, text/plain", strings.Repeat("a", 3000) + "/json", "application/octet-stream"}
 var c38IdemKeys = []string{"", " ", strings.Repeat("i", 5000), "\xff\xfe", "é", "ik with space", "ik\ttab", "null", "0", "ik-seed-a", "'; --", "\x7f", "a,b", `"q"`}
 
+// c38UltraLight (set around the import-stream enumeration only): 4 replacements per node
+var c38UltraLight bool
+
 // type confusion replacements for a node (raw JSON); X = the node itself
 func c38Confusions(x *c38N, light bool) []*c38N {
+	if light && c38UltraLight {
+		return []*c38N{c38Raw("null"), c38Raw("1.5"), c38Str("x"), c38Obj()}
+	}
 	if light {
 		return []*c38N{c38Raw("null"), c38Raw("true"), c38Raw("0"), c38Raw("-1"), c38Raw("1.5"), c38Str("x"), c38Arr(), c38Obj()}
 	}
@@ -515,15 +523,15 @@ func c38TreeMutants(root *c38N, maxDepth, level int, emit func(class, desc strin
 		switch {
 		case key == "source" || key == "destination" || key == "address" || key == "targetid" && node.isString():
 			for _, a := range c38BadAddresses {
-				emit("bad_address", fmt.Sprintf("%s = %q", at, c38Trunc(a, 24)), c38Replace(root, s, c38RawStr(a)).Bytes())
+				emit("bad_address", fmt.Sprintf("%s = %q", at, c38Trunc(a, 24))+c38MustReject(at, key, a), c38Replace(root, s, c38RawStr(a)).Bytes())
 			}
 		case key == "asset":
 			for _, a := range c38BadAssets {
-				emit("bad_asset", fmt.Sprintf("%s = %q", at, c38Trunc(a, 24)), c38Replace(root, s, c38RawStr(a)).Bytes())
+				emit("bad_asset", fmt.Sprintf("%s = %q", at, c38Trunc(a, 24))+c38MustReject(at, key, a), c38Replace(root, s, c38RawStr(a)).Bytes())
 			}
 		case key == "amount" || key == "input" || key == "output" || key == "balance":
 			for _, a := range c38BadAmounts {
-				emit("bad_amount", fmt.Sprintf("%s = %s", at, c38Trunc(a, 24)), c38Replace(root, s, c38Raw(a)).Bytes())
+				emit("bad_amount", fmt.Sprintf("%s = %s", at, c38Trunc(a, 24))+c38MustReject(at, key, a), c38Replace(root, s, c38Raw(a)).Bytes())
 			}
 		case key == "timestamp" || key == "date" || key == "pit" || key == "oot" || key == "endtime" || key == "starttime" || key == "insertedat" || key == "updatedat" || key == "revertedat" || key == "createdat":
 			for _, d := range c38BadDates {
@@ -556,6 +564,39 @@ func c38TreeMutants(root *c38N, maxDepth, level int, emit func(class, desc strin
 		}
 	}
 	_ = orig
+}
+
+// Independent validity rules of a posting, from the documented formats
+// (address: segments of [a-zA-Z0-9_-]+ joined by ':'; asset: [A-Z][A-Z0-9]{0,16}(_[A-Z]{1,16})?(/\d{1,6})?;
+// amount: a non-negative integer). c38MustReject returns a marker for values that are certainly invalid:
+// a create-transaction request carrying one in `postings[i]` must not be answered 2xx.
+var (
+	c38ReAddress  = regexp.MustCompile(`^[a-zA-Z0-9_-]+(:[a-zA-Z0-9_-]+)*$`)
+	c38ReAsset    = regexp.MustCompile(`^[A-Z][A-Z0-9]{0,16}(_[A-Z]{1,16})?(/[0-9]{1,6})?$`)
+	c38ReNegative = regexp.MustCompile(`^-[0-9]*[1-9][0-9]*$`)
+)
+
+const c38MustRejectMark = " [must-reject: "
+
+func c38MustReject(path, key, value string) string {
+	if !strings.HasPrefix(path, "postings[") || strings.Count(path, ".") != 1 {
+		return ""
+	}
+	switch key {
+	case "source", "destination":
+		if utf8.ValidString(value) && !c38ReAddress.MatchString(value) {
+			return c38MustRejectMark + "invalid " + key + " address]"
+		}
+	case "asset":
+		if utf8.ValidString(value) && !c38ReAsset.MatchString(value) {
+			return c38MustRejectMark + "invalid asset]"
+		}
+	case "amount":
+		if c38ReNegative.MatchString(value) {
+			return c38MustRejectMark + "negative amount]"
+		}
+	}
+	return ""
 }
 
 var c38BadScripts = []string{"", " ", "send", "not a script at all é <>", "send [USD 1] (", "vars {", "send [USD 1] (\n source = @world\n destination = @bank\n)\nsend", "\x00", "send [USD -1] (\n source = @world\n destination = @bank\n)",
@@ -721,9 +762,10 @@ func c38FilterMutants(resource, valid string, level int, emit func(class, desc, 
 		`{"$match":{"address":"x"},"$match":{"address":"y"}}`,
 		strings.Repeat(`{"$not":`, 200) + valid + strings.Repeat(`}`, 200),
 		strings.Repeat(`{"$and":[`, 200) + valid + strings.Repeat(`]}`, 200),
-		strings.Repeat(`{"$not":`, 9000) + valid + strings.Repeat(`}`, 9000),
-		`{"$and":[` + strings.TrimSuffix(strings.Repeat(valid+",", 3000), ",") + `]}`,
-		`{"$in":{"address":[` + strings.TrimSuffix(strings.Repeat(`"a",`, 20000), ",") + `]}}`,
+		// deeper nests are measured by c38NestingProbe: the cost is quadratic in the depth (9000 levels = 80 kB take 5-8 s of CPU)
+		strings.Repeat(`{"$not":`, 1200) + valid + strings.Repeat(`}`, 1200),
+		`{"$and":[` + strings.TrimSuffix(strings.Repeat(valid+",", 400), ",") + `]}`,
+		`{"$in":{"address":[` + strings.TrimSuffix(strings.Repeat(`"a",`, 2000), ",") + `]}}`,
 	}
 	for _, s := range structural {
 		emit("filter_structure", c38Trunc(s, 70), s)
